@@ -4,6 +4,7 @@
 #include "../common/keygen.hpp"
 #include "pgm/pgm_index_dynamic.hpp"
 #include "pgm/pgm_index_variants.hpp"
+#include <algorithm>
 #include <atomic>
 #include <memory>
 #include <sstream>
@@ -268,7 +269,24 @@ CaseResult run_conc(const RunCtx &ctx, TapeReader &t, unsigned size_hint, S &sub
         }
     res.sum("threads", nthreads);
     res.sum("concurrent_queries", (uint64_t) nthreads * per_thread);
-    res.nontrivial = nthreads >= 2 && subj.pool_size() >= 1; // every thread draws from the same pool of keys and entry points
+    // non-trivial: two different threads issued the very same query (same entry point, same key of the pool) - measured, not assumed
+    {
+        std::vector<std::pair<unsigned, size_t>> seen; // (entry point, pool index) of thread 0..i-1
+        bool overlap = false;
+        const size_t ps = std::max<size_t>(1, subj.pool_size());
+        std::vector<std::vector<std::pair<unsigned, size_t>>> per(nthreads);
+        for (unsigned i = 0; i < nthreads; ++i) {
+            for (auto &q: scripts[i]) per[i].emplace_back(q.kind % S::kinds, q.a % ps);
+            std::sort(per[i].begin(), per[i].end());
+        }
+        for (unsigned i = 1; i < nthreads && !overlap; ++i) {
+            std::vector<std::pair<unsigned, size_t>> common;
+            std::set_intersection(per[0].begin(), per[0].end(), per[i].begin(), per[i].end(), std::back_inserter(common));
+            overlap = !common.empty();
+        }
+        res.nontrivial = overlap;
+        if (overlap) res.label("nt_same_query_in_two_threads");
+    }
     return res;
 }
 
@@ -307,8 +325,8 @@ static const char *rule(const std::string &) {
            "after a generated update history} built single-threaded from generated data, then 2..16 std::threads started behind one barrier, each running a "
            "generated script of 20..420 queries drawn from one shared pool (search; lower/upper_bound, count, contains; contains and box ranges; find, count, "
            "lower_bound, range, iteration, empty); 1/3 of the cases run the same script in every thread. oracle: ThreadSanitizer reports nothing "
-           "(halt_on_error, non-zero exit) and every thread's result digest equals the digest of the same script run alone beforehand. non-trivial: >= 2 "
-           "threads executed the same entry points on the same pool of keys (always, by construction); distinct by canonical tape hash";
+           "(halt_on_error, non-zero exit) and every thread's result digest equals the digest of the same script run alone beforehand. non-trivial: thread 0 "
+           "and some other thread issued an identical query (same entry point, same element of the pool), measured per case; distinct by canonical tape hash";
 }
 
 const Engine ENGINE = {"e_conc", 512, &run, &rule};
